@@ -12,8 +12,12 @@ import (
 	"sync"
 	"sync/atomic"
 	"testing"
+	"time"
 
 	"google.golang.org/grpc"
+	"google.golang.org/grpc/credentials/insecure"
+	"google.golang.org/grpc/internal"
+	"google.golang.org/grpc/resolver/manual"
 	"google.golang.org/grpc/internal/grpcsync"
 	iresolver "google.golang.org/grpc/internal/resolver"
 	"google.golang.org/grpc/internal/wrr"
@@ -42,6 +46,11 @@ import (
 //	                 method /svc/r<i>; the WRR (rinternal.NewWRR) returns entry c mod n
 //	[3, j]           RPCConfig.OnCommitted() of RPC j (may be repeated)
 //	[4]              r.Error(resource error)
+//	[5, i, c]        an RPC for /svc/r<i> through a real grpc.ClientConn (manual resolver whose
+//	                 state carries the config selector last handed to cc.UpdateState) with
+//	                 grpc.UseCompressor of a compressor that is not installed: newClientStream
+//	                 runs SelectConfig and then fails before any attempt exists; obs [2, ok, key],
+//	                 emissions, [6, 1, refCount before the RPC + 1, refCount after it], snapshot
 //
 // After every op the serializer is drained.  obs per op: one word per cc.UpdateState
 //
@@ -130,6 +139,39 @@ type vClusterRefDriver struct {
 	unsub  map[*clusterInfo]*int32
 	choice int64
 	picked any
+	ch     *grpc.ClientConn
+	mr     *manual.Resolver
+	scfg   *serviceconfig.ParseResult
+}
+
+// earlyFail sends one RPC through a real channel; it must fail while the client stream is
+// being created, after the config selector was consulted.
+func (d *vClusterRefDriver) earlyFail(cs iresolver.ConfigSelector, method string) error {
+	if d.ch == nil {
+		d.scfg = internal.ParseServiceConfig.(func(string) *serviceconfig.ParseResult)("{}")
+		d.mr = manual.NewBuilderWithScheme("verifclusterref")
+		d.mr.InitialState(iresolver.SetConfigSelector(resolver.State{
+			Addresses: []resolver.Address{{Addr: "127.0.0.1:1"}}, ServiceConfig: d.scfg}, cs))
+		ch, err := grpc.NewClient(d.mr.Scheme()+":///svc", grpc.WithResolvers(d.mr),
+			grpc.WithTransportCredentials(insecure.NewCredentials()))
+		if err != nil {
+			return err
+		}
+		d.ch = ch
+		d.ch.Connect()
+	}
+	d.mr.UpdateState(iresolver.SetConfigSelector(resolver.State{
+		Addresses: []resolver.Address{{Addr: "127.0.0.1:1"}}, ServiceConfig: d.scfg}, cs))
+	ctx, cancel := context.WithTimeout(context.Background(), 5*time.Second)
+	defer cancel()
+	st, err := d.ch.NewStream(ctx, &grpc.StreamDesc{ClientStreams: true, ServerStreams: true}, method,
+		grpc.UseCompressor("verif-clusterref-not-installed"))
+	if err == nil {
+		_ = st.CloseSend()
+		cancel()
+		return errors.New("stream creation unexpectedly succeeded")
+	}
+	return nil
 }
 
 func vClusterRefKey(name string) int64 {
@@ -328,6 +370,9 @@ func vClusterRefExec(cfg []int64, ops [][]int64) ([][]int64, bool, []string) {
 	r.dm = xdsdepmgr.New("lis", "svc", client, r)
 	d.r = r
 	defer func() {
+		if d.ch != nil {
+			d.ch.Close()
+		}
 		cancel()
 		<-r.serializer.Done()
 		r.dm.Close()
@@ -434,6 +479,53 @@ func vClusterRefExec(cfg []int64, ops [][]int64) ([][]int64, bool, []string) {
 			if res != nil {
 				obs = append(obs, res)
 			}
+		case op[0] == 5 && len(op) == 3:
+			d.mu.Lock()
+			cs := d.cs
+			d.mu.Unlock()
+			res := []int64{2, 0, 0}
+			var res6 []int64
+			csel, _ := cs.(*configSelector)
+			if csel != nil {
+				r0 := map[*clusterInfo]int64{}
+				for _, ci := range csel.clusters {
+					r0[ci] = int64(ci.refCount.Load())
+				}
+				for _, ci := range csel.plugins {
+					r0[ci] = int64(ci.refCount.Load())
+				}
+				d.choice, d.picked = op[2], nil
+				method := "/svc/none"
+				if op[1] >= 0 {
+					method = "/svc/r" + strconv.FormatInt(op[1], 10)
+				}
+				if err := d.earlyFail(cs, method); err != nil {
+					panic("verif ClusterRef early-fail op: " + err.Error())
+				}
+				d.drain()
+				if it, ok := d.picked.(*grpcsync.RefCounted[*routeCluster]); ok {
+					name := it.Value().name
+					p := &vClusterRefRPC{key: vClusterRefKey(name), done: true}
+					if info, ok := csel.clusters[name]; ok {
+						p.info = info
+					} else {
+						p.info = csel.plugins[name]
+					}
+					d.mu.Lock()
+					d.rpcs = append(d.rpcs, p)
+					d.mu.Unlock()
+					res = []int64{2, 1, p.key}
+					if p.info != nil {
+						res6 = []int64{6, 1, r0[p.info] + 1, int64(p.info.refCount.Load())}
+					}
+					tags = append(tags, "earlyfail")
+				}
+			}
+			obs = append(obs, res)
+			obs = append(obs, d.takeEmits()...)
+			if res6 != nil {
+				obs = append(obs, res6)
+			}
 		case op[0] == 4 && len(op) == 1:
 			r.Error(errors.New("resource not found"))
 			d.drain()
@@ -476,6 +568,8 @@ func vClusterRefGen(r *vRand, tier string, idx int) ([]int64, [][]int64) {
 		ops = [][]int64{
 			{1, 1}, {2, 0, 0}, {2, 0, 0}, {1, 2}, {3, 0}, {1, 2}, {1, 1, 2}, {2, 0, 0}, {3, 1}, {3, 1}, {1, 2}, {3, 2}, {1, 2},
 			{1, 1, 2, 0, 3}, {2, 0, 1}, {2, 1, 0}, {2, 0, 2}, {1, 3}, {3, 4}, {3, 3}, {3, 5}, {1, 3}, {3, 9}, {2, 5, 0}, {2, -1, 0},
+			// RPCs rejected during stream creation: their reference must be released at once
+			{1, 1}, {5, 0, 0}, {1, 2}, {1, 2}, {5, 0, 0}, {5, 7, 0}, {3, 6}, {1, -1}, {5, 0, 0}, {1, 1}, {4}, {5, 0, 0},
 		}
 	case 1:
 		// plugins: the commit of the last RPC triggers a new service config
@@ -496,8 +590,11 @@ func vClusterRefGen(r *vRand, tier string, idx int) ([]int64, [][]int64) {
 			switch x := r.Intn(100); {
 			case x < 25:
 				ops = append(ops, vClusterRefGenRoutes(r))
-			case x < 60:
+			case x < 52:
 				ops = append(ops, []int64{2, int64(r.Intn(3)), int64(r.Intn(4))})
+				nrpc++
+			case x < 60:
+				ops = append(ops, []int64{5, int64(r.Intn(3)), int64(r.Intn(4))})
 				nrpc++
 			case x < 95:
 				j := int64(r.Intn(nrpc + 1))
